@@ -36,7 +36,7 @@ fn main() {
                     let mut total = 0;
                     let mut f = 0u32;
                     while f < 65536 {
-                        let c = c18::SortCase { n, arrangement: arr, salt: 3, distinct: if arr == 5 { 4 } else { 0 }, threads: 1, cancel_at: None, total: false, nucleo_items: 0, cancel_frac: Some(f as u16) };
+                        let c = c18::SortCase { n, arrangement: arr, salt: 3, distinct: if arr == 5 { 4 } else { 0 }, threads: 1, cancel_at: None, total: false, nucleo_items: 0, cancel_frac: Some(f as u16), lower_after: None, dropping: false };
                         let o = c18::C18.run(&c);
                         total += 1;
                         if o.fail.is_some() {
@@ -55,7 +55,7 @@ fn main() {
                 for &n in &[100u32, 500, 2000, 5000, 20000] {
                     for salt in 0..6u32 {
                         for &distinct in &[0u32, 2, 3, 17] {
-                            let c = c18::SortCase { n, arrangement: arr, salt, distinct, threads: 1, cancel_at: None, total: false, nucleo_items: 0, cancel_frac: None };
+                            let c = c18::SortCase { n, arrangement: arr, salt, distinct, threads: 1, cancel_at: None, total: false, nucleo_items: 0, cancel_frac: None, lower_after: None, dropping: false };
                             let o = c18::C18.run(&c);
                             if o.labels.contains(&"branch:heapsort") {
                                 println!("heapsort: {c:?}");
